@@ -275,23 +275,41 @@ def uniform_rules(spec):
 
 
 def make_rule(b, rl):
+    """builds the rule; `rl['late']` = {parameter: unit}: the parameter object handed to the rule (and to its timer) is
+    re-expressed **in place** after the rule has been built — same magnitude, another unit"""
     t = rl['type']
+    held = {}
+
+    def q(key, kind):
+        held[key] = Q(kind, rl[key])
+        return held[key]
     if t == 'const':
-        return ConstantPWM(timer=Timer(start_time=Q('Time', rl['start']), duration=Q('TimeInterval', rl['dur'])),
+        rule = ConstantPWM(timer=Timer(start_time=q('start', 'Time'), duration=q('dur', 'TimeInterval')),
                            powertrain=b.pt, target_pwm_value=rl['value'])
-    # element indices are taken modulo the chain length (a re-declared relation can shorten the chain)
-    enc = AbsoluteRotaryEncoder(b.E[rl['enc'] % len(b.E)])
-    tk = rl.get('target_kind', 'AngularPosition')
-    if t == 'reach':
-        return ReachAngularPosition(encoder=enc, powertrain=b.pt, target_angular_position=Q(tk, rl['target']),
-                                    braking_angle=Q('Angle', rl['brake']))
-    if t == 'prop':
-        return StartProportionalToAngularPosition(encoder=enc, powertrain=b.pt, target_angular_position=Q(tk, rl['target']),
-                                                  pwm_min_multiplier=rl['mult'], pwm_min=rl.get('pmin'))
-    if t == 'limit':
-        return StartLimitCurrent(encoder=enc, tachometer=Tachometer(b.E[rl['tach'] % len(b.E)]), motor=b.motor,
-                                 target_angular_position=Q(tk, rl['target']), limit_electric_current=Q('Current', rl['ilim']))
-    raise ValueError(t)
+    else:
+        # element indices are taken modulo the chain length (a re-declared relation can shorten the chain)
+        enc = AbsoluteRotaryEncoder(b.E[rl['enc'] % len(b.E)])
+        tk = rl.get('target_kind', 'AngularPosition')
+        if t == 'reach':
+            rule = ReachAngularPosition(encoder=enc, powertrain=b.pt, target_angular_position=q('target', tk),
+                                        braking_angle=q('brake', 'Angle'))
+        elif t == 'prop':
+            rule = StartProportionalToAngularPosition(encoder=enc, powertrain=b.pt, target_angular_position=q('target', tk),
+                                                      pwm_min_multiplier=rl['mult'], pwm_min=rl.get('pmin'))
+        elif t == 'limit':
+            rule = StartLimitCurrent(encoder=enc, tachometer=Tachometer(b.E[rl['tach'] % len(b.E)]), motor=b.motor,
+                                     target_angular_position=q('target', tk), limit_electric_current=q('ilim', 'Current'))
+        else:
+            raise ValueError(t)
+    for key, unit in (rl.get('late') or {}).items():
+        if key in held:
+            held[key].to(unit, inplace=True)
+    return rule
+
+
+def late_unit(rl, key):
+    """unit the parameter object carries while the rule is in use"""
+    return (rl.get('late') or {}).get(key, rl[key][1])
 
 
 def make_stop(b, st):
@@ -558,12 +576,12 @@ def model_cfg(spec, tr, dt_unit=None, rules=_UNSET, coef=None):
             t = rl['type']
             if t == 'const':
                 du = dt_unit or first_dt_unit(spec)
-                e1, t1 = ctx('Time', du, 'Time', rl['start'][1])
-                e2, t2 = ctx('Time', du, 'TimeInterval', rl['dur'][1])
+                e1, t1 = ctx('Time', du, 'Time', late_unit(rl, 'start'))
+                e2, t2 = ctx('Time', du, 'TimeInterval', late_unit(rl, 'dur'))
                 rs.append(f"C:{siR('Time', rl['start'])}:{siR('TimeInterval', rl['dur'])}:{R(rl['value'])}:{e1}:{t1}:{e2}:{t2}")
             else:
                 tk = rl.get('target_kind', 'AngularPosition')
-                e1, t1 = ctx('AngularPosition', pos_u, tk, rl['target'][1])
+                e1, t1 = ctx('AngularPosition', pos_u, tk, late_unit(rl, 'target'))
                 tg = siR('AngularPosition', rl['target'])
                 if t == 'reach':
                     rs.append(f"R:{rl['enc'] % tr['n']}:{tg}:{siR('Angle', rl['brake'])}:{e1}:{t1}")
